@@ -683,6 +683,11 @@ fn g_full_at_stop(k: usize, policy: u8, end: u8) {
     chk!(18, dropped == first && mt.action_received.load(Ordering::SeqCst) == k, "received (marker excluded) + dropped = dispatched while open");
     chk!(9, store.subscribers.lock().unwrap().len() == 0, "subscribers are released at shutdown however the loop ends");
     chk!(4, store.subscribers.lock().unwrap().len() == 0, "loop exit releases the subscribers");
+    // the release is what flushes and joins channeled subscribers, ends state iterators, and
+    // lets a consumer blocked in next() return
+    chk!(10, store.subscribers.lock().unwrap().len() == 0, "stop() releases (flushes and joins) channeled subscribers however the loop ends");
+    chk!(13, store.subscribers.lock().unwrap().len() == 0, "subscribers waiting for the end of the stream are released however the loop ends (no consumer blocks forever)");
+    chk!(14, store.subscribers.lock().unwrap().len() == 0, "after the store is stopped the iterator's subscriber is released (it then yields None)");
     chk!(15, end != END_DROP || store.subscribers.lock().unwrap().len() == 0, "dropping a DroppableStore releases the subscribers");
     let r = Dispatcher::dispatch(&store, kani::any());
     chk!(4, r.is_err(), "after stop() dispatch is rejected under every policy");
@@ -691,7 +696,7 @@ fn g_full_at_stop(k: usize, policy: u8, end: u8) {
         core::ptr::write(&mut G_STORE, None);
     }
     core::mem::forget(store);
-    finish!(4, 6, 9, 15, 18);
+    finish!(4, 6, 9, 10, 13, 14, 15, 18);
 }
 glue_plain! { #[kani::unwind(7)] fn g_full_latest_k2_stop() { g_full_at_stop(2, 2, END_STOP); } }
 glue_plain! { #[kani::unwind(7)] fn g_full_latest_k1_drop() { g_full_at_stop(1, 2, END_DROP); } }
